@@ -293,9 +293,13 @@ def cli_batch(res, tier):
                      'keep_file': ['--keep-names-from-file', keep_file_path()]}[config]
             # luamin on a .p8
             path = os.path.join(d, 'm%d.p8' % n)
-            p8file.to_file(carts.make_game({}, version=33, code_lines=[src]), path)
             res.evaluations += 1
             case = {'src': src, 'config': config, 'cli': 'luamin'}
+            try:
+                p8file.to_file(carts.make_game({}, version=33, code_lines=[src]), path)
+            except Exception as e:
+                res.violation('C01|cli|input-cart-raise|%s' % type(e).__name__, 'the valid program %r cannot be saved as a cart: %r' % (src, e), case)
+                continue
             try:
                 rc_ = tool.main(['luamin'] + flags + [path])
                 code = b''.join(p8file.from_file(os.path.join(d, 'm%d_fmt.p8' % n)).lua.to_lines())
